@@ -2305,6 +2305,17 @@ def check_members_initialised(ctx, unit, classes, rule="I.members-initialised", 
                 if any(n.get("delegating") for n in inits):
                     continue
                 have = {n.get("field") for n in inits if n.get("field") and n.d.get("init") is not None}
+                # a member of class type constructed by its own constructor (a dissolved state struct): what that
+                # constructor initialises
+                for n in f.all_nodes():
+                    if n.kind in ("CXXConstructExpr", "CXXTemporaryObjectExpr") and n.callee and n.callee.get("did") in byd:
+                        g = byd[n.callee["did"]]
+                        if g.kind == "ctor":
+                            have |= {y.get("field") for y in g.all_nodes() if y.kind == "CtorInit" and y.get("field") and y.d.get("init") is not None}
+                            for y in g.all_nodes():
+                                wy = write_of(y)
+                                if wy and wy[0] and len(wy[0]) >= 2 and wy[0][0] == "this":
+                                    have.add(wy[0][1])
                 for n in f.all_nodes():
                     w = write_of(n)
                     if w and w[0] and len(w[0]) >= 2 and w[0][0] == "this":
@@ -2320,3 +2331,136 @@ def check_members_initialised(ctx, unit, classes, rule="I.members-initialised", 
                 miss = [x for x in need if x not in have]
                 ctx.inst(rule, label, not miss, f.loc, ("member(s) %s are given no value" % miss) if miss else
                          "%d scalar members, all initialised" % len(scal), f)
+
+
+def check_dtor_releases(ctx, unit, table, rule="O.dtor-releases"):
+    """table: {class uq: buffer field}.  The destructor gives the buffer back on EVERY path on which the buffer pointer is not
+    known to be null: `if(empty()) return;` ahead of the tear-down leaves the (empty) table of a drained container behind --
+    whether there are elements says nothing about whether there is a block."""
+    from .rules_guard import write_of
+    ctx.rule(rule, "the destructor of an owning container reaches the release of its buffer on every path on which the buffer "
+             "pointer is not known null (an early return for an EMPTY container leaks the block of a drained one)", len(table))
+    for cls, fld in table.items():
+        ds = [f for f in unit.functions if (f.owner_cls or "") == cls and f.kind == "dtor" and f.blocks]
+        if not ds:
+            raise AnalysisBroken("anchor vanished: destructor of %s" % cls)
+        seen = set()
+        for f in ds:
+            if f.owner_clsqn in seen:
+                continue
+            seen.add(f.owner_clsqn)
+
+            def rel(n):
+                if n.is_call() and n.callee and n.callee["n"] in ("deallocate", "free") and n.args:
+                    for a in n.args:
+                        pa = path(a)
+                        if pa and pa[0] == "this" and pa[-1] == fld:
+                            return True
+                return False
+            if not any(rel(n) for n in f.all_nodes()):
+                raise AnalysisBroken("anchor vanished: release of %s in ~%s" % (fld, cls))
+
+            def tr(n, st):
+                return ["released"] if rel(n) else [st]
+
+            def rf(cond, truth, st):
+                c, t = cond.strip(), truth
+                while c.kind == "UnaryOperator" and c.op == "!":
+                    c, t = c.children[0].strip(), not t
+                if c.kind == "BinaryOperator" and c.op in ("==", "!=") and any(x.strip().get("nullc") or x.strip().kind == "CXXNullPtrLiteralExpr" for x in c.children):
+                    o = [x for x in c.children if not (x.strip().get("nullc") or x.strip().kind == "CXXNullPtrLiteralExpr")]
+                    if o:
+                        c, t = o[0].strip(), (t if c.op == "!=" else not t)
+                pc = path(c)
+                if pc and pc[0] == "this" and pc[-1] == fld and not t and st != "released":
+                    return ["null"]
+                return [st]
+            _, ex = flow.run(f, ["held"], tr, rf)
+            bad = [s_ for s_ in ex if s_ == "held"]
+            ctx.inst(rule, "%s::~%s" % (f.owner_clsqn, cls.split("::")[-1]), not bad and bool(ex), f.loc,
+                     "a path leaves the destructor without releasing %s although it may be non-null" % fld if bad else
+                     "%s is released, or known null, on every path" % fld, f)
+
+
+def check_assign_reads_source_first(ctx, unit, classes, rule="R.assign-reads-source-first"):
+    """Copy assignment from `const C &other`: the source may live INSIDE an element of the destination (`node.kids =
+    node.kids[0].kids`).  Destroying the destination's elements (clear(), resize, a destructor call, giving the buffer back)
+    before the last read of `other` reads a destroyed object.  Taking the source by value, or building a copy first and
+    swapping, has no such order problem."""
+    ctx.rule(rule, "operator= of a sequence container does not destroy its own elements or release its buffer before the last read "
+             "of a by-reference source (the source may be a sub-object of one of those elements)", 1)
+    DESTROY = {"clear", "resize", "destruct", "destruct_n", "free", "deallocate", "pop", "pop_back", "_destroy", "reset"}
+    for cls in classes:
+        fs = [f for f in unit.functions if (f.owner_cls or "") == cls and f.name == "operator=" and f.blocks]
+        if not fs:
+            continue        # (not instantiated, or deleted)
+        seen = set()
+        for f in fs:
+            if f.sig in seen:
+                continue
+            seen.add(f.sig)
+            ps = f.params()
+            refs = [p for p in ps if (p.get("t") or "").rstrip().endswith("&") and not (p.get("t") or "").rstrip().endswith("&&")]
+            if not refs:
+                ctx.inst(rule, f.sig, True, f.loc, "takes its source by value (or as an rvalue): nothing of it can die with the old elements", f)
+                continue
+            od = refs[0]["d"]
+            pos = f.positions()
+            kills = [n for n in f.events() if n.id in pos and (
+                (n.is_call() and n.callee and (n.callee["n"] in DESTROY or n.callee.get("kind") == "dtor"))
+                or n.kind == "CXXPseudoDestructorExpr")]
+            # only what acts on *this: a member call on this, or a call that is handed one of this's fields
+            def on_this(n):
+                o = n.child("obj") if n.kind == "CXXMemberCallExpr" else None
+                if o is not None and path(o) and path(o)[0] == "this":
+                    return True
+                return any(path(a) and path(a)[0] == "this" for a in n.args) if n.is_call() else False
+            kills = [n for n in kills if on_this(n)]
+            bad = []
+            for k in kills:
+                for x in f.events():
+                    if x.kind == "DeclRefExpr" and x.d.get("d") == od and x.id in pos and x.id != k.id and f.reaches(k.id, x.id) \
+                            and x.id not in {y.id for y in k.walk()}:
+                        bad.append("`%s` is read at %s after %s() at %s destroyed elements of *this" % (
+                            refs[0]["n"], x.loc.split("/")[-1], k.callee["n"] if k.is_call() and k.callee else "a destructor", k.loc.split("/")[-1]))
+                        break
+            ctx.inst(rule, f.sig, not bad, f.loc, "; ".join(bad[:2]) if bad else "%d destroying calls on *this, none before a read of the source" % len(kills), f)
+
+
+def check_move_ctor_complete(ctx, unit, classes, rule="W.move-carries-state"):
+    """A user-written move (or copy) constructor replaces the member-wise one: every data member of the listed classes is
+    protocol state, so each one is taken from the corresponding member of the source -- mentioned as `other.member` in an
+    initialiser, an exchange, a splice -- or the whole object is swapped / delegated.  A member that is merely
+    default-initialised silently drops what the source held in it."""
+    ctx.rule(rule, "a user-written move/copy constructor mentions every data member of its source (or swaps / delegates the whole "
+             "object): no piece of state is dropped on the way", len(classes))
+    byd = {f.did: f for f in unit.functions}
+    for cls in classes:
+        recs = unit.record(cls)
+        if not recs:
+            raise AnalysisBroken("anchor vanished: class %s" % cls)
+        rec = recs[0]
+        ms = [m for m in rec["methods"] if m.get("kind") == "ctor" and (m.get("move") or m.get("copy")) and not m.get("deleted")
+              and m.get("userprovided") and m.get("hasbody")]
+        if not ms:
+            ctx.inst(rule, cls, True, rec["loc"], "no user-written move/copy constructor: member-wise (or deleted)", None, nontrivial=False)
+            continue
+        for m in ms:
+            f = byd.get(m["did"])
+            if f is None or not f.params():
+                continue
+            od = f.params()[0]["d"]
+            whole = any(n.is_call() and n.callee and n.callee["n"] in ("swap",) and any(
+                std_unwrap(a).kind == "DeclRefExpr" and std_unwrap(a).d.get("d") == od for a in n.args) for n in f.all_nodes()) or \
+                any(n.kind == "CtorInit" and n.get("delegating") for n in f.all_nodes())
+            used = set()
+            for n in f.all_nodes():
+                if n.kind == "MemberExpr" and n.children:
+                    b = std_unwrap(n.children[0])
+                    if b.kind == "DeclRefExpr" and b.d.get("d") == od:
+                        used.add(n.m)
+            miss = [fl["n"] for fl in rec["fields"] if fl["n"] not in used]
+            ok = whole or not miss
+            ctx.inst(rule, "%s::<ctor>(%s)" % (cls, f.params()[0]["t"]), ok, f.loc,
+                     "member(s) %s of the source are not carried over" % miss if not ok else
+                     ("the whole object is swapped / delegated" if whole else "every member of the source is mentioned"), f)
